@@ -89,7 +89,11 @@ pub fn run_case(c: &Case, drv: &mut Drv) -> Outcome {
     let mut model_file: Vec<u8> = vec![];
     let mut model_fail: Option<String> = None;
     let nsess = c.sessions.len();
+    let mut died_inside_fragment = false;
     for (si, lens) in c.sessions.iter().enumerate() {
+        if died_inside_fragment {
+            break;
+        }
         let recs: Vec<Vec<u8>> = lens.iter().enumerate().map(|(ri, l)| c.record(si, ri, *l)).collect();
         let dying = c.cut.is_some() && nsess >= 2 && si == nsess - 2;
         if dying {
@@ -112,9 +116,28 @@ pub fn run_case(c: &Case, drv: &mut Drv) -> Outcome {
             model_fail.get_or_insert(format!("model rejected request: {ans}"));
         } else {
             let chunks: Vec<Vec<u8>> = toks[2..].iter().filter(|t| !t.is_empty()).filter_map(|t| unhex(t)).collect();
-            let take = if dying { (c.cut.unwrap() as usize).min(chunks.len()) } else { chunks.len() };
-            for ch in chunks.iter().take(take) {
-                model_file.extend_from_slice(ch);
+            if dying {
+                // the model predicts the BYTE STREAM of the session; how many write calls the
+                // implementation needs for it (one per fragment, header and payload separately, several
+                // fragments at once) is its own business: take as many bytes as the dying writer got out
+                let stream: Vec<u8> = chunks.iter().flatten().copied().collect();
+                let written = fs.read_file(path).unwrap_or_default().len().saturating_sub(flen).min(stream.len());
+                model_file.extend_from_slice(&stream[..written]);
+                let mut boundary = 0usize;
+                let mut at_boundary = written == 0;
+                for ch in &chunks {
+                    boundary += ch.len();
+                    if boundary == written {
+                        at_boundary = true;
+                    }
+                }
+                // a writer that died INSIDE a fragment leaves a torn tail: such a log is never opened
+                // for appending again (it does not read cleanly to its end), so no later session follows
+                died_inside_fragment = !at_boundary;
+            } else {
+                for ch in chunks.iter() {
+                    model_file.extend_from_slice(ch);
+                }
             }
         }
         match res {
@@ -203,6 +226,9 @@ pub fn run_case(c: &Case, drv: &mut Drv) -> Outcome {
                 oracle_fail = Some(format!("a log cut inside a record (complete records end at {complete_len}, file has {} bytes) is reported as cleanly read: recovery would append behind the torn tail", file.len()));
             }
         }
+    }
+    if oracle_fail.is_none() && died_inside_fragment && c.trunc.is_none() && got_clean {
+        oracle_fail = Some("the last writer died inside a fragment, yet the log is reported as cleanly read to its end: recovery would append behind the torn tail".into());
     }
     // model reader on the same bytes
     if model_fail.is_none() {
